@@ -169,4 +169,23 @@ TEXT.update({
         note="Trusted: Lean kernel + 3 standard axioms; RWMutex/atomics/rendezvous semantics modelled; ties: regenerated CFG facts and constants, sequential word-level differential, concurrent trace acceptance with exact state words.",
         technique="Lean 4 proof (word arithmetic by omega; 16-clause invariant over an LTS with unbounded threads) + decide over regenerated CFG + sequential differential + concurrent trace acceptance"),
 })
+TEXT.update({
+    "C06": dict(
+        text="Lean theorems for every reachable state of the ChanPubSub protocol model (unbounded senders and contract-following subscribers, every interleaving of the "
+             "individual lock / atomic / channel operations, on top of the ChanCaster word model): Sends are serialised (one global order); every subscriber that is subscribed "
+             "and between rounds when a Send feeds the caster is owed a copy until it receives it or withdraws; the send phase ends only when nobody is owed; ping.Send's result "
+             "= number of subscribers that received the value; nobody is served twice in a round (no pong is available during the send phase); pongs published = receptions; "
+             "Send returns only after every receiver acknowledged; nobody can subscribe while a Send holds sendingMu; Send returns 0 at once with nobody subscribed. Tied by "
+             "regenerated CFG facts and by concurrent trace acceptance with exact counter / caster-word values and every received value.",
+        note="Trusted: Lean kernel + 3 standard axioms; mutex/rwmutex/cond/atomic/rendezvous semantics modelled; contiguity of each subscription's run is checked only dynamically (open statement).",
+        technique="Lean 4 proof (two inductive invariants, 7 + 13 clauses with sums over unbounded subscribers, 27 actions) + decide over regenerated CFG + concurrent trace acceptance"),
+    "C07": dict(
+        text="Lean theorems for every reachable state of the same model: no call ever panics with a state-invariant violation (the caster word always equals the number of "
+             "subscribers that still owe a receive-or-remove to the Send in progress, also for unsubscribes that land before the CAS, during the send phase, before ever "
+             "receiving, from a cancelled SubscribeContext or a never-run iterator); the subscriber counter is exactly subscriptions minus withdrawals; at quiescence word = 0, no "
+             "pong outstanding, no lock held; while any call is pending some step other than the unsubscribe spin is enabled (no deadlock), assuming fewer than MaxInt32 "
+             "subscribers. Lock order acyclic (regenerated edges). Tied by regenerated CFG facts and concurrent trace acceptance; a call that does not return is reported.",
+        note="Trusted: Lean kernel + 3 standard axioms; semantics of the sync primitives modelled; termination only as deadlock freedom (no leadsTo under fairness).",
+        technique="Lean 4 proof (inductive invariants over an LTS with unbounded threads; 200-line deadlock-freedom case analysis) + decide over regenerated CFG and lock-order edges + concurrent trace acceptance"),
+})
 NOT_YET = {}
